@@ -136,14 +136,14 @@ def universe(draw, kinds=('int', 'str', 'tuple', 'fset', 'mixed', 'obj'), lo=3, 
         pool = [{"obj": i} for i in range(6)]
     else:
         # ints and strings incl. ids that print alike, plus tuples whose members are ids themselves
-        pool = [0, 1, 2, -1, 7, 1000] + ['1', '0', 'a', '', '-1', 'A'] + [{"tuple": [1, 2]}, {"tuple": [0, 1]}]
+        pool = [0, 1, 2, -1, 7, 1000] + ['1', '0', 'a', '', '-1', 'A'] + [{"tuple": [1, 2]}, {"tuple": [0, 1]}, {"tuple": [1]}]
     n = min(n, len(pool))
     idx = draw(st.lists(st.integers(0, len(pool) - 1), min_size=n, max_size=n, unique=True))
     out = [pool[i] for i in idx]
     # one universe in four starts with two distinct ids that hash alike (-1/-2, 0/''), or with a tuple id
     # next to its own members: the first ids of a universe are the ones histories use most
     if draw(st.integers(0, 3)) == 0:
-        front = {'int': [-1, -2], 'mixed': [0, '', 1, 2, {"tuple": [1, 2]}][draw(st.integers(0, 1)) * 2:][:3 if n >= 4 else 2]}.get(kind)
+        front = {'int': [-1, -2], 'mixed': [[0, ''], [1, 2, {"tuple": [1, 2]}], [1, {"tuple": [1]}, 2]][draw(st.integers(0, 2))][:3 if n >= 4 else 2]}.get(kind)
         if front:
             out = front + [x for x in out if x not in front]
             out = out[:max(n, len(front))]
@@ -355,14 +355,14 @@ def history(draw, classes=('DynGraph', 'DynDiGraph'), removal=(True,), kinds=Non
 
 
 def very_long_cases():
-    """Twelve fixed histories in which one pair collects 70-130 runs (thresholds such as "more than 64 runs"):
+    """Fourteen fixed histories in which one pair collects 65-300 runs (thresholds such as "more than 64 runs"):
     point runs and short intervals separated by gaps of 1-3 instants, the endpoints flipped now and then, a second
     pair and the reverse arc interleaved, negative / zero-straddling / huge starts."""
     out = []
     for k, (cls, base, nruns) in enumerate([('DynGraph', 0, 70), ('DynDiGraph', 0, 70), ('DynGraph', -150, 90), ('DynDiGraph', -150, 90),
                                             ('DynGraph', 2 ** 63 - 100, 66), ('DynDiGraph', 2 ** 63 - 100, 66),
                                             ('DynGraph', 1, 130), ('DynDiGraph', -7, 130), ('DynGraph', -1000, 65), ('DynDiGraph', 10 ** 9, 65),
-                                            ('DynGraph', -3, 72), ('DynDiGraph', 3, 72)]):
+                                            ('DynGraph', -3, 72), ('DynDiGraph', 3, 72), ('DynGraph', 0, 300), ('DynDiGraph', -500, 300)]):
         ops, t = [], base
         for i in range(nruns):
             ln = (i * 7 + k) % 4                       # 0: a point run, 1-3: an interval of that many extra instants
